@@ -53,10 +53,9 @@ import (
 //     by value; a driver that renumbers or compacts the tables is not losing information);
 //   - the order of samples (compared as a multiset);
 //   - mappings, when the input has none: the driver attaches a fake mapping to every location
-//     (locateBinaries, documented there);
-//   - Period, when PeriodType is set and |Period| >= 2^53: measurement.ScaleProfiles converts the period
-//     to the common period unit through float64 even for a single profile (C03/C15 territory; counted
-//     as `cli-period-beyond-2^53-not-compared`).
+//     (locateBinaries, documented there).
+// Period, duration and time are compared exactly: for a single input measurement.ScaleProfiles has no
+// common unit to convert to (CommonValueType of one type is nil) and leaves period and values alone.
 // Options that are documented not to change a saved profile (-sample_index, -unit, -divide_by=1,
 // -nodecount/-nodefraction: trimming is off for -proto, -sort, -mean) must leave the output
 // unchanged; with -divide_by=d (d>1) every value must be v/d ("ratio to divide all samples"),
@@ -131,7 +130,7 @@ type c01BV struct {
 	samples     []c01BVSample
 }
 
-func c01BVOf(p *profile.Profile, eraseMappings, erasePeriod bool) c01BV {
+func c01BVOf(p *profile.Profile, eraseMappings bool) c01BV {
 	var bv c01BV
 	var w tw
 	w.n(len(p.SampleType))
@@ -164,9 +163,7 @@ func c01BVOf(p *profile.Profile, eraseMappings, erasePeriod bool) c01BV {
 			w.valueType(p.PeriodType)
 		}
 	})
-	if !erasePeriod {
-		h("period", func(w *tw) { w.int(p.Period) })
-	}
+	h("period", func(w *tw) { w.int(p.Period) })
 	for _, s := range p.Sample {
 		var ws, wv, wl tw
 		ws.n(len(s.Location))
@@ -339,6 +336,11 @@ func c01CLIExec(c *Ctx, canon string, spec c01CLISpec, slot int) c01CLIRun {
 	if len(run.stderr) > 4000 {
 		run.stderr = run.stderr[len(run.stderr)-4000:]
 	}
+	if ctx.Err() != nil {
+		// overloaded machine or a hang (C09's subject): not a verdict about the round trip
+		run.runErr = "timeout after 60s"
+		return run
+	}
 	if err == nil {
 		run.exit = 0
 	} else if ee, ok := err.(*exec.ExitError); ok {
@@ -370,7 +372,7 @@ func c01LastLine(s string) string {
 func c01CLIEval(c *Ctx, canon string, spec c01CLISpec, run c01CLIRun) bool {
 	cs := c01Case{Profile: canon, CLI: &spec}
 	pre := "C01/cli-proto/"
-	how := "pprof " + strings.Join(spec.Args, " ") + " -proto -output=out in"
+	how := "pprof " + strings.Join(append(append([]string{}, spec.Args...), "-proto", "-output=out", "in"), " ")
 	if spec.Mode == "interactive" {
 		pre = "C01/cli-interactive/"
 		how = "interactive pprof session (" + strings.Join(spec.Script, "; ") + ")"
@@ -404,12 +406,7 @@ func c01CLIEval(c *Ctx, canon string, spec c01CLISpec, run c01CLIRun) bool {
 		return false
 	}
 	eraseMappings := len(p.Mapping) == 0
-	erasePeriod := false
-	if p.PeriodType != nil && (p.Period >= 1<<53 || p.Period <= -(1<<53)) {
-		erasePeriod = true
-		c.Res.Hit("cli-period-beyond-2^53-not-compared")
-	}
-	want := c01BVOf(exp, eraseMappings, erasePeriod)
+	want := c01BVOf(exp, eraseMappings)
 	nontrivial := false
 	for k, ob := range run.outs {
 		tag := ""
@@ -433,7 +430,7 @@ func c01CLIEval(c *Ctx, canon string, spec c01CLISpec, run c01CLIRun) bool {
 				}
 			}
 		}
-		got := c01BVOf(out, eraseMappings, erasePeriod)
+		got := c01BVOf(out, eraseMappings)
 		if spec.Divide > 1 {
 			if d := c01BVDiff(got, want, true); d != "" {
 				c.Violation(pre+"divide-by/"+d, how+": the written profile differs from the input in more than the scaled values"+tag, cs)
@@ -466,7 +463,7 @@ func c01CLIEval(c *Ctx, canon string, spec c01CLISpec, run c01CLIRun) bool {
 			c.Violation(pre+d, what, cs)
 			continue
 		}
-		if eraseMappings || erasePeriod {
+		if eraseMappings {
 			continue
 		}
 		if Canon(out) == Canon(exp) {
@@ -510,7 +507,7 @@ func c01CLIFlags(r *Rng, p *profile.Profile) []string {
 		case 4:
 			a = append(a, "-nodefraction=0.5")
 		case 5:
-			a = append(a, "-sort=cum")
+			a = append(a, "-cum")
 		case 6:
 			a = append(a, "-mean")
 		case 7:
